@@ -122,7 +122,11 @@ def provenance_shard(pool, k, version, indices):
             cache_mod.parser_cache.clear()
             case = {'history': [texts[i], t1], 'version': version}
             try:
-                g.parse(texts[i], diff_cache=True, path=PATH)
+                m0 = g.parse(texts[i], diff_cache=True, path=PATH)
+                try:
+                    g._get_normalizer_issues(m0)        # anything the walk caches on the tree is now populated
+                except Exception:
+                    pass
                 m1 = g.parse(t1, diff_cache=True, path=PATH)
             except Exception as e:
                 continue       # a failing re-parse is C04's business
@@ -174,6 +178,11 @@ def recheck(case):
         m = None
         for t in case['history']:
             m = g.parse(t, diff_cache=True, path=PATH)
+            if t is not case['history'][-1]:
+                try:
+                    g._get_normalizer_issues(m)
+                except Exception:
+                    pass
         cache_mod.parser_cache.clear()
         return {('issues-differ-for-incremental-tree',)} if issues(m) != issues(g.parse(case['history'][-1])) else set()
     return sigma.recheck_text(MOD, case)
@@ -182,7 +191,9 @@ def recheck(case):
 def families(tier, seed):
     V = env.VERSIONS
     if tier == 'quick':
-        fams = [sigma.fam(a, 3, V) for a in ('blocks', 'ws', 'ops', 'stm', 'stm2', 'strs', 'indent', 'sem')]
+        Q = ['3.6', '3.8', '3.10', '3.13']
+        fams = [sigma.fam(a, 3, Q) for a in ('blocks', 'ws', 'ops', 'stm', 'stm2', 'strs', 'indent', 'sem')]
+        fams += [sigma.fam(a, 2, V, name='%s<=2/all' % a) for a in ('blocks', 'ws', 'ops', 'stm', 'stm2', 'strs', 'indent', 'sem')]
         fams += [sigma.fam(a, 4, ['3.8'], name='%s=4' % a, n_lo=4) for a in ('blocks', 'ws', 'indent')]
         fams.append(sigma.fam('ffc', 6, ['3.8']))
         fams.append(sigma.fam('pep8', 4, ['3.8', '3.13']))
@@ -214,8 +225,8 @@ def run(tier, seed):
         acc.merge(a)
     R.section('nesting families depth <= 100', acc)
     from .c04 import pool_texts, POOLS
-    for pool in (('A', 'D') if tier == 'quick' else tuple(POOLS)):
-        k = 2
+    for pool in (('A', 'D', 'P') if tier == 'quick' else tuple(POOLS) + ('P',)):
+        k = 3 if pool == 'P' else 2
         n = len(pool_texts(pool, k))
         idx = list(range(n))
         acc = core.Acc()
